@@ -361,7 +361,9 @@ class Spectrum(object):
         elif NFFT is None:
             logging.debug('NFFT set to data length')
             new_nfft = self.N
-        elif isinstance(NFFT, int):
+        elif isinstance(NFFT, (int, numpy.integer)):
+            # numpy integers too: 2**nextpow2(N) from spectrum.tools is one
+            NFFT = int(NFFT)
             logging.debug('NNFT set  manually to {}'.format(NFFT))
             assert NFFT > 0, 'NFFT must be a positive integer'
             new_nfft = NFFT
